@@ -7,9 +7,11 @@ func vObserve(q *Queue[int], ref []int, what string) {
 	if len(ref) > 1 {
 		i := 0
 		q.Each(func(v int) bool {
-			snap := q.Slice()
-			f, _ := q.Peek(0)
-			vAssert(len(snap) == len(ref) && q.Len() == len(ref) && f == ref[0], what+": observers called from inside Each see the whole queue")
+			if i == 0 || i == len(ref)-1 { // (not at every element: Slice is linear)
+				snap := q.Slice()
+				f, _ := q.Peek(0)
+				vAssert(len(snap) == len(ref) && q.Len() == len(ref) && f == ref[0], what+": observers called from inside Each see the whole queue")
+			}
 			vAssert(i < len(ref) && v == ref[i], what+": Each is not disturbed by observers called from its callback")
 			i++
 			return true
